@@ -7,7 +7,7 @@ RULE = ("exposure stream: every zoo entry (37 registrations - value, pointer, on
         "134 methods) x 7 naming functions x 3 group options (quick: 4 of the 7 naming functions per entry, one group option each), two (quick: four) methods per case: HasMethod for "
         "every declared name renamed/raw/mutated (7 routes per method), GetArgType for the real route, one CallWithSerialize "
         "per method; behaviours stream: every zoo entry x {JSON, protobuf} x method with a context and a message parameter: "
-        "10 handler behaviours (3 of them keep the completion function) x with/without completion function, matching/nil/foreign context, undecodable payload, through "
+        "12 handler behaviours (3 of them keep the completion function, 2 panic with a hostile value) x with/without completion function, matching/nil/foreign context, undecodable payload, through "
         "CallWithSerialize and APICollection.Call (nil / foreign message too; short list for non-handler-shaped methods in "
         "quick); dispatch stream: a real actorex/service.Service with an APIDispatcher over 1-3 collections of entries taking "
         "*RemoteContext (5 configurations x dispatcher orders incl. empty / repeated / unbuilt collection) x every route of "
@@ -25,7 +25,12 @@ RULE = ("exposure stream: every zoo entry (37 registrations - value, pointer, on
         "a third of it); overlap stream: 2-3 calls / requests whose handlers KEEP the completion function (BDefer, BOkDefer, BDeferPanic) "
         "on one collection, on ONE reused dispatcher over two collections, and mixed, with complete calls, a notification and "
         "further kept functions in between; the kept functions are then run (OFire) in every order, each twice, with a result / "
-        "an error / an unserialisable result, plus runs of functions that do not exist (quick: half of it); f4 stream: 1 (quick) / 9 (thorough) three-op cases addressing a notify-shaped method with a completion "
+        "an error / an unserialisable result, plus runs of functions that do not exist (quick: half of it); panics stream: 11 kinds of panic value (string, error, runtime errors, custom error, typed-nil error "
+        "whose Error() panics, value whose String()/Error() panics, nil, non-comparable value, wrapped error, int) through "
+        "CallWithSerialize, Call, a notification and the dispatching service, each followed by a normal call; dots stream: group "
+        "names with dots / empty segments (chat.room, a., .b, a..b, ., chat.room.x) x naming functions producing dots or the empty "
+        "name x 3 entries: HasMethod, GetArgType and a call for every way of gluing group and method names and for routes with "
+        "0-4 dots; f4 stream: 1 (quick) / 9 (thorough) three-op cases addressing a notify-shaped method with a completion "
         "function / request id (plus 2 in the corpus); "
         "random: 1-4 registrations (one in six of an entry Build() refuses; group collisions, register-after-build, no build), 4-15 ops with real / mutated / random "
         "/ special routes, encoded / field-wise (omitted / good / wrong-typed / null fields) / protobuf-partial / malformed / random / empty payloads, nil serializer, one op in eight runs a kept completion function; every third random case is a "
